@@ -50,6 +50,9 @@ def handle (j : Json) : Json :=
       | .ok (.arr a) => some (a.toList.map fun x => (asStr x).toList)
       | _ => none
     let single := jbool j "single"
+    -- what reaches the `run` command: through `DoitMain.run` the command line without its name=value words
+    -- (`planCli`); through `doit.api.run_tasks` the given names as they are
+    let cargs := if jstr j "entry" = "run_tasks" then args else stripVars args
     let pts := prepare ts
     let sa := selArgs args dflt
     let reinit := match sa with
@@ -62,6 +65,12 @@ def handle (j : Json) : Json :=
       ("deps", mkArr (ts.map fun t => mkArr [ofTok t.name, ofToks (expandWild ts t), ofToks (finalDeps ts t)])),
       ("head", planJson (planGen ts false args dflt single)),
       ("pinned", planJson (planGen ts true args dflt single)),
+      ("cli", planJson (planGen ts false cargs dflt single)),
+      ("cli_args", ofToks cargs),
+      ("pinned_cli_crash", Json.bool (jstr j "entry" != "run_tasks" && (pinnedCliArgs args).isNone)),
+      ("cli_pos", mkArr ((match selArgs cargs dflt with
+          | none => []
+          | some a => pfPos pts (a.length + 1) [] a).map fun (n, vs) => mkArr [ofTok n, ofToks vs])),
       ("spec", planJson (planGen ts false args dflt single)),
       ("reinit", Json.bool reinit),
       ("pos", mkArr (pos.map fun (n, vs) => mkArr [ofTok n, ofToks vs])),
@@ -71,10 +80,10 @@ def handle (j : Json) : Json :=
         let o := jobj j "obs"
         let obs : Obs := { exit := jnat o "exit", processed := toks o "processed", started := toks o "started",
                            ran := toks o "ran", actionsOnly := jbool o "actions_only" }
-        let chunked := match planGen ts false args dflt single with
+        let chunked := match planGen ts false cargs dflt single with
           | .ok p => chunkedB p.tasks p.sel obs.started
           | .error _ => true
-        [("monitor", ofStrs (monitor ts args dflt single obs)), ("chunked", Json.bool chunked)]
+        [("monitor", ofStrs (monitor ts cargs dflt single obs)), ("chunked", Json.bool chunked)]
       else []
     Json.mkObj (base ++ mon)
 
